@@ -82,11 +82,13 @@ impl BytesEnvelope {
     }
 }
 
-impl From<BytesEnvelope> for Vec<u8> {
-    fn from(envelope: BytesEnvelope) -> Self {
+impl TryFrom<BytesEnvelope> for Vec<u8> {
+    type Error = Error;
+
+    fn try_from(envelope: BytesEnvelope) -> Result<Self, Self::Error> {
         match envelope.content_type {
-            BytesEncoding::Base64 => base64_to_bytes(&envelope.content).unwrap(),
-            BytesEncoding::Hex => hex_to_bytes(&envelope.content).unwrap(),
+            BytesEncoding::Base64 => base64_to_bytes(&envelope.content),
+            BytesEncoding::Hex => hex_to_bytes(&envelope.content),
         }
     }
 }
